@@ -239,6 +239,12 @@ func (group *AbacoGroup) fillMissingPackets() (bytesAdded, packetsAdded, framesA
 	snexpect := group.lastSN + 1
 	for _, p := range group.queue {
 		sn := p.SequenceNumber()
+		if sn <= group.lastSN {
+			// Left over from an earlier call (this group is ahead of another one):
+			// already checked for gaps and counted, so it must not advance snexpect again.
+			newq = append(newq, p)
+			continue
+		}
 		for snexpect < sn {
 			pfake := p.MakePretendPacket(snexpect, group.nchan)
 			newq = append(newq, pfake)
